@@ -514,7 +514,7 @@ def RANDBETWEEN(bottom, top):
     if utils.any_is_error((bottom, top)):
         return error.VALUE
 
-    return random.randint(int(bottom), int(top))
+    return random.randint(int(math.ceil(bottom)), int(math.floor(top)))
 
 
 @dispatcher.register_for('INT')
